@@ -130,7 +130,11 @@ pub fn run(ctx: &Ctx) -> i32 {
                 let vm = match guarded(|| plugins::validate_mt(&text)) { Ok(Ok(v)) => { if v.get("valid").and_then(|x| x.as_bool()) == Some(true) { format!("valid:{}", v.get("message_type").and_then(|x| x.as_str()).unwrap_or("?")) } else if v.to_string().contains("Unsupported message type") { "unsupported".into() } else { "invalid".into() } } Ok(Err(_)) => "error".into(), Err(l) => format!("panic@{}", short_loc(&l)) };
                 buckets.insert(format!("code:{}:{}:{}", if supported { "supported" } else { "unsupported" }, bname, auto.split('@').next().unwrap_or("")));
                 let case = || json!({"code": code, "header": hname, "body": bname, "message": text});
-                if !supported {
+                if !supported && class_of(code) == "non-numeric" {
+                    // not a type code at all: the header is malformed (C10); rejecting it as such is as good as
+                    // "unsupported" -- what must not happen is that it is treated as some type
+                    for (entry, o) in [("parse_auto", &auto), ("parse_mt", &pm), ("validate_mt", &vm)] { if o.starts_with("ok:") || o.starts_with("valid:") || o.starts_with("panic") { col.add(format!("C12/{entry}/non-numeric->{o}"), order, || format!("non-numeric code {code} gave {o}"), case); } }
+                } else if !supported {
                     if auto != "unsupported" { col.add(format!("C12/parse_auto/{}->{}", class_of(code), auto), order, || format!("unsupported code {code} gave {auto}"), case); }
                     if pm != "unsupported" { col.add(format!("C12/parse_mt/{}->{}", class_of(code), pm), order, || format!("unsupported code {code} gave {pm}"), case); }
                     if vm != "unsupported" { col.add(format!("C12/validate_mt/{}->{}", class_of(code), vm), order, || format!("unsupported code {code} gave {vm}"), case); }
